@@ -27,19 +27,19 @@ CHECKS = {
          "DESIGN.md §4 C15"),
 
  "C06": ("stateful proptest session histories; metamorphic oracle (history with failing inputs vs the same history without them) + digest invariant after every step",
-         "Generated sessions of typed definitions, redefinitions, units, dimensions, structs, imports, expressions and prints interleaved with failing inputs of 13 kinds (every stage), each possibly preceded by successful statements and imports in the same input; after every input the complete definition digests of the two sessions must agree, later inputs must behave identically, names and modules touched by failed inputs are probed at the end.",
+         "Generated sessions of typed definitions, redefinitions, units, dimensions, structs, imports, expressions and prints interleaved with failing inputs of 16 kinds (every stage; also inputs that define nothing) and `ans` probes around failing inputs, each possibly preceded by successful statements and imports in the same input; after every input the complete definition digests of the two sessions must agree, later inputs must behave identically, names and modules touched by failed inputs are probed at the end.",
          "The session digest (function signatures, unit definitions, dimensions, raw variable values) is what 'the same session' means; source labels are not compared.",
          "DESIGN.md §4 C06"),
  "C07": ("stateful proptest histories with random partitions and clone points; differential oracle line-by-line vs chunked vs joined vs saved-and-replayed, and clone vs never-cloned sessions",
-         "Histories of successful inputs (including redefinitions, function values, ans/_) are run line by line, in random chunks, as one input, and through CommandRunner `save` + replay; prints, per-input results and definition digests must agree, the saved file must hold exactly the trimmed successful inputs, and a cloned session continued differently must equal a never-cloned one.",
+         "Histories of successful inputs (including redefinitions, function values, ans/_) are run line by line, in random chunks, as one input, and through CommandRunner `save` + replay; prints, per-input results and definition digests must agree, the saved file must hold exactly the trimmed successful inputs, and a cloned session continued differently (random continuation, or the original's continuation without its unit definitions) must show the same results and prints and end in the same definitions as a never-cloned one.",
          "Digest as in C06; scratch history files live under /verif/target/scratch.",
          "DESIGN.md §4 C07"),
- "C08": ("proptest input generation (token soup, corpus mutation, extreme-value templates, corrupted programs, nesting, bytes) + libFuzzer target; oracle = no panic, diagnostics render, session stays usable, bounded time",
-         "24 000 inputs per quick run (1.6 M thorough) in fresh / prelude / prelude+definitions sessions with debug assertions and overflow checks on; every error's diagnostics are rendered through codespan; panics are keyed by file + message and compared with the recorded findings.",
+ "C08": ("proptest input generation (calls of every prelude function with typed edge-value arguments, character-level continuations from an alphabet read from the tokenizer sources, token soup, corpus mutation, extreme-value templates, corrupted programs, nesting, bytes) + complete enumeration of two-character continuations + (thorough) libFuzzer target `interp` with the same oracle; oracle = no panic, diagnostics render, session stays usable, bounded CPU time",
+         "About 62 000 inputs per quick run (1.6 M thorough plus 6.4 M libFuzzer executions) in fresh / prelude / prelude+definitions sessions with debug assertions and overflow checks on; every error's diagnostics are rendered through codespan; panics are keyed by file + message and compared with the recorded findings.",
          "In-process: native stack overflow (nesting beyond the generator's bound) and memory exhaustion cannot be observed and end the run with exit 2; a VM step budget (hook) stops unbounded recursion and is reported as inconclusive.",
          "DESIGN.md §4 C08"),
  "C10": ("proptest token sequences (grammar-directed trees with minimal parentheses, token mutations, soup) differential against a reference recursive-descent parser written from the documented EBNF and precedence table",
-         "About a million token sequences per quick run over all documented operator spellings and literal forms; numbat's syntax tree (hook, S-expression) must equal the reference parser's tree, and inputs the reference rejects must be rejected; the book's examples are fixed seeds with hand-written trees.",
+         "About ten million token sequences per quick run (48 M thorough plus 64 M libFuzzer executions of the `parse` target) over all documented operator spellings and literal forms; numbat's syntax tree (hook, S-expression) must equal the reference parser's tree, and inputs the reference rejects must be rejected; the book's examples are fixed seeds with hand-written trees.",
          "The reference parser encodes the EBNF plus three observed conventions stated in the evidence assumptions; tokenizer-level invalid literals are not generated.",
          "DESIGN.md §4 C10"),
  "C22": ("proptest programs run through the real CLI binary three ways; differential oracle against the library in process and between FILE and -e",
@@ -69,10 +69,10 @@ CHECKS = {
          "DESIGN.md §4 C12"),
  "C13": ("exhaustive enumeration of the finite alias x prefix x spelling table; oracle = decorators + independent prefix table",
          "All ~33 000 candidate identifiers (every alias with every long and short prefix spelling, bare aliases, near misses) are classified on every run by evaluation and by the session's prefix parser; accepted forms must read as exactly (prefix, unit) with value 1 and display in a form that reads back; rejected forms must not read as that unit; uniqueness over the whole table.",
-         "Acceptance is derived from the unit metadata exported by the hook; the arcsecond `″` finding is keyed per unit.",
+         "The decorators as written in the module sources (own parser) are compared with the unit metadata the session registered, and acceptance in the table is derived from that metadata; the arcsecond `″` finding is keyed per unit.",
          "DESIGN.md §4 C13"),
  "C14": ("proptest over f64 classes x format options; round-trip oracle (displayed text -> literal -> value) against Rust's exact decimal formatting",
-         "800 000 (thorough 32 M) values from targeted f64 classes with every documented separator, thresholds 1-10 and 1-17 significant digits: keywords for NaN/inf, the text re-read by Rust and by numbat gives x rounded to the shown digits (either neighbour within 1 ulp of a midpoint), integers below 2^53 keep all digits and are grouped iff the threshold is reached.",
+         "8 M (thorough 64 M) values from targeted f64 classes with every documented separator, thresholds 1-10 and 1-17 significant digits: keywords for NaN/inf, the text re-read by Rust and by numbat gives x rounded to the shown digits (either neighbour within 1 ulp of a midpoint), integers below 2^53 keep all digits and are grouped iff the threshold is reached.",
          "Rust's `{:.Ne}` formatting is the reference rounding.",
          "DESIGN.md §4 C14"),
  "C19": ("proptest over instants x zones x durations; oracle = independent integer-nanosecond arithmetic + algebraic relations + format/parse round trip",
@@ -141,6 +141,8 @@ def main():
         "engines": [
             {"name": "nbv", "path": "/verif/harness", "serves_properties": [c["property_id"] for c in checks],
              "kind_free_text": "Rust binary: proptest TestRunner (fixed seeds, 16 shards), exhaustive enumerators for the finite domains, reference models, known-finding matcher, replay files, evidence writer"},
+            {"name": "nbv-fuzz", "path": "/verif/fuzz", "serves_properties": ["C08", "C10"],
+             "kind_free_text": "cargo-fuzz crate (libFuzzer, nightly): targets `interp` and `parse` call the harness oracles; built and driven by nbv in the thorough tiers (16 jobs, seeds derived from VERIF_SEED, artifacts replayed in process)"},
         ],
         "checks": checks,
         "not_applicable": na,
